@@ -282,8 +282,8 @@ func TestC12_DatagramBoundaries(t *testing.T) {
 						wn = len(buf)
 						truncated = true
 					}
-					if n != wn || !bytes.Equal(buf[:n], want[:wn]) {
-						problem = fmt.Sprintf("read into a %d-byte buffer returned n=%d %x.., the next datagram of %s has %d bytes %x..", len(buf), n, head(buf[:max(n, 0)]), from, len(want), head(want))
+					if n != wn || n > len(buf) || !bytes.Equal(buf[:n], want[:wn]) {
+						problem = fmt.Sprintf("read into a %d-byte buffer returned n=%d %x.., the next datagram of %s has %d bytes %x.. (a longer datagram is truncated to the buffer and n is the number of bytes delivered)", len(buf), n, head(buf[:min(max(n, 0), len(buf))]), from, len(want), head(want))
 					}
 					trace = append(trace, fmt.Sprintf("read(buf=%d)=%d", len(buf), n))
 					if chain && problem == "" {
@@ -354,8 +354,8 @@ func TestC12_DatagramBoundaries(t *testing.T) {
 							wn = len(buf)
 							truncated = true
 						}
-						if n != wn || !bytes.Equal(buf[:n], want[:wn]) {
-							problem = fmt.Sprintf("synchronous read into a %d-byte buffer returned n=%d %x.., the next datagram of %s has %d bytes %x..", len(buf), n, head(buf[:max(n, 0)]), from, len(want), head(want))
+						if n != wn || n > len(buf) || !bytes.Equal(buf[:n], want[:wn]) {
+							problem = fmt.Sprintf("synchronous read into a %d-byte buffer returned n=%d %x.., the next datagram of %s has %d bytes %x.. (a longer datagram is truncated to the buffer and n is the number of bytes delivered)", len(buf), n, head(buf[:min(max(n, 0), len(buf))]), from, len(want), head(want))
 						}
 						trace = append(trace, fmt.Sprintf("syncread(buf=%d)=%d", len(buf), n))
 						continue
